@@ -1133,7 +1133,10 @@ func (dc *DirectConnection) readResultRows(result *mysql.Result, isBinary bool, 
 	return nil
 }
 
-// drainResults will read all packets for a result set and ignore them.
+// drainResults will read all packets for a result set and ignore them. When the closing EOF
+// announces further results (SERVER_MORE_RESULTS_EXISTS: CALL, multi-statement text), nobody is
+// going to ask for them after the error that made us drain: they are read and ignored too, or they
+// would be taken for the answer to the next statement sent on this connection.
 func (dc *DirectConnection) drainResults() error {
 	for {
 		data, err := dc.conn.ReadEphemeralPacket()
@@ -1143,7 +1146,12 @@ func (dc *DirectConnection) drainResults() error {
 		}
 
 		if dc.isEOFPacket(data) {
+			more := dc.capability&mysql.ClientProtocol41 > 0 && len(data) >= 5 &&
+				binary.LittleEndian.Uint16(data[3:])&mysql.ServerMoreResultsExists > 0
 			dc.conn.RecycleReadPacket()
+			if more {
+				return dc.drainMoreResults()
+			}
 			return nil
 		} else if data[0] == mysql.ErrHeader {
 			err := dc.handleErrorPacket(data)
@@ -1151,6 +1159,57 @@ func (dc *DirectConnection) drainResults() error {
 			return err
 		}
 		dc.conn.RecycleReadPacket()
+	}
+}
+
+// drainMoreResults reads and ignores the results that follow a result whose status announced them.
+func (dc *DirectConnection) drainMoreResults() error {
+	for {
+		data, err := dc.conn.ReadEphemeralPacket()
+		if err != nil {
+			dc.conn.RecycleReadPacket()
+			return err
+		}
+		switch data[0] {
+		case mysql.OKHeader:
+			// affected rows, insert id, status
+			more := false
+			_, pos, _, ok := mysql.ReadLenEncInt(data, 1)
+			if ok {
+				_, pos, _, ok = mysql.ReadLenEncInt(data, pos)
+			}
+			if ok && dc.capability&mysql.ClientProtocol41 > 0 && len(data) >= pos+2 {
+				more = binary.LittleEndian.Uint16(data[pos:])&mysql.ServerMoreResultsExists > 0
+			}
+			dc.conn.RecycleReadPacket()
+			if !more {
+				return nil
+			}
+		case mysql.ErrHeader:
+			err := dc.handleErrorPacket(data)
+			dc.conn.RecycleReadPacket()
+			return err
+		default:
+			// a result set: the column definitions up to their EOF, then the rows (and what follows them)
+			dc.conn.RecycleReadPacket()
+			for {
+				data, err := dc.conn.ReadEphemeralPacket()
+				if err != nil {
+					dc.conn.RecycleReadPacket()
+					return err
+				}
+				if dc.isEOFPacket(data) {
+					dc.conn.RecycleReadPacket()
+					break
+				} else if data[0] == mysql.ErrHeader {
+					err := dc.handleErrorPacket(data)
+					dc.conn.RecycleReadPacket()
+					return err
+				}
+				dc.conn.RecycleReadPacket()
+			}
+			return dc.drainResults()
+		}
 	}
 }
 
